@@ -1,7 +1,8 @@
 ------------------------------- MODULE MonC11 -------------------------------
 (* C11 - server misbehaviour or odd event timing gives a clean error, never a panic; after an
    error nothing more is emitted or accepted on that connection; a server that follows the
-   protocol is never reported as violating it. *)
+   protocol is never reported as violating it; no configuration value the builders accept makes the
+   client panic or abort its event loop. *)
 EXTENDS MonBase
 
 Init0 == [run |-> 0, skip |-> FALSE, errs |-> <<>>,
@@ -18,6 +19,9 @@ Apply(m, e) ==
     IF e.ev = "Cfg" THEN [Init0 EXCEPT !.run = e.run, !.errs = m.errs]
     ELSE IF m.skip THEN m
     ELSE CASE e.ev = "Panic" -> Breach(m, e, "panic")
+           \* client-level runs (real tokio / threaded client, extreme configuration values the builders accept): an event loop
+           \* that is gone although the client was never closed has panicked or aborted
+           [] e.ev = "End" /\ "loopAlive" \in DOMAIN e -> IF e.loopAlive = 0 /\ e.closed = 0 THEN Breach(m, e, "panic") ELSE m
            [] e.ev = "Open" -> [m EXCEPT !.errored = (e.result # "ok"), !.open = (e.result = "ok"), !.flushed = FALSE, !.connectTx = FALSE, !.timedOut = {}]
            [] e.ev \in {"Close", "Reset"} -> [m EXCEPT !.errored = FALSE, !.open = FALSE, !.timedOut = {}]
            [] e.ev = "Tx" /\ e.partial = 0 /\ e.type = "CONNECT" -> [m EXCEPT !.connectTx = TRUE]
